@@ -212,6 +212,28 @@ def handle (j : Json) : Except String Json := do
         | .ok r =>
           let m := fvMags db cat s.q.unit v fv
           pure (Json.mkObj [("ok", fvJ r), ("Mn", ratJ m.1), ("Mf", ratJ m.2)])
+  | "cfv" =>
+    let db ← dbOf (← getStr j "db")
+    let u ← getSym j "from"
+    let v ← getSym j "to"
+    let fv ← getFV j "v"
+    let qj ← getObj j "q"
+    let done := fun (qa : QArg) (cat : Option Sym) =>
+      match convertFractionValue db qa u v fv with
+      | .error e => errJ e
+      | .ok r =>
+        let m := match cat with
+          | some c => fvMags db c u v fv
+          | none => (0, 0)
+        Json.mkObj [("ok", fvJ r), ("Mn", ratJ m.1), ("Mf", ratJ m.2)]
+    match ← getStr qj "t" with
+    | "qtype" => pure (done (.qtype (← getSym qj "s")) (defaultCategory db u))
+    | "quantity" =>
+      -- the caller builds the Quantity object first: ObtainQuantity(unit, category)
+      match obtain db (← getSym qj "cat") (← getSym qj "unit") with
+      | .error e => pure (errJ e)
+      | .ok q => pure (done (.quantity q) (some q.cat))
+    | t => throw s!"bad quantity argument {t}"
   | "fs_order" =>
     let db ← dbOf (← getStr j "db")
     let c ← cmpOf (← getStr j "f")
